@@ -997,6 +997,11 @@ class C16(Check):
                 for sp_ in sps:
                     for which in ("A", "B"):
                         out.append(("exp", exporter, which, name, sp_, ow))
+        # the flag in other legal forms (numpy booleans, 0 / 1): only its truth value may matter
+        for name, exporter in files:
+            if exporter is not None:
+                for owf in ("npF", "i0", "npT", "i1"):
+                    out.append(("exp", exporter, "B", name, "str-rel", owf))
         for name, exporter in files:
             exists = st["fs"][name] != "absent"
             if not exists:
@@ -1332,7 +1337,11 @@ class C16(Check):
     def _apply_ow(self, st, op, verify):
         from menpo.io.exceptions import OverwriteError
 
-        _, exporter, which, name, sp_, ow = op
+        _, exporter, which, name, sp_, ow_spec = op
+        ow_val = {"npF": np.bool_(False), "i0": 0, "npT": np.bool_(True), "i1": 1}.get(ow_spec, ow_spec) if isinstance(ow_spec, str) else ow_spec
+        ow = bool(ow_val)
+        if isinstance(ow_spec, str):
+            self.note("ow:flag-form:%s" % ow_spec)
         where = "overwrite:%s" % exporter
         obj, ref = self._ow_obj(st, exporter, which)
         exists = st["fs"][name] != "absent"
@@ -1341,7 +1350,7 @@ class C16(Check):
             from mc.core import HarnessError
 
             raise HarnessError("model and directory disagree before the op: %r %r" % (sorted(before), st["fs"]))
-        _, exc = _call(st["dir"], sp_, name, _export_call(exporter, obj, ow))
+        _, exc = _call(st["dir"], sp_, name, _export_call(exporter, obj, ow_val))
         after = _snapshot(st["dir"])
         fails = []
         if exists and not ow:
